@@ -81,10 +81,11 @@ type vfC22Case struct {
 }
 
 type vfC22Live struct {
-	Tamper        int  `json:"tamper"`           // 0 none, 1 fingerprint in the offer altered (answerer's handshake check fails), 2 in the answer
-	NoCloseByDTLS bool `json:"no_close_by_dtls"` // SettingEngine.DisableCloseByDTLS
-	Media         int  `json:"media"`            // 0 data channel only, 1 plus a video track
-	Close         int  `json:"close"`            // 0 nobody, 1 offerer closes after settling, 2 answerer
+	Tamper        int  `json:"tamper"`             // 0 none, 1 fingerprint in the offer altered (answerer's handshake check fails), 2 in the answer
+	NoCloseByDTLS bool `json:"no_close_by_dtls"`   // SettingEngine.DisableCloseByDTLS
+	Media         int  `json:"media"`              // 0 data channel only, 1 plus a video track
+	Close         int  `json:"close"`              // 0 nobody, 1 offerer closes after settling, 2 answerer
+	SlowICE       int  `json:"slow_ice,omitempty"` // ms the application's OnICEConnectionStateChange callbacks take (both peers)
 }
 
 // vfC22RunLive: a real pair, optionally with a fingerprint altered in flight so that one side's
@@ -104,6 +105,20 @@ func vfC22RunLive(v *vfT, c vfC22Case) {
 	}
 	defer func() { _ = pcA.Close(); _ = pcB.Close() }()
 	pcB.OnDataChannel(func(*DataChannel) {})
+	if l.SlowICE > 0 {
+		// an application callback that outlasts the DTLS handshake: the update that follows it must
+		// still aggregate the transports' current states
+		slow := func(st ICEConnectionState) {
+			// only the report of "connected" is slow: the reports are delivered one after another, a
+			// slow "checking" would merely delay the one that matters until DTLS is up as well
+			if st == ICEConnectionStateConnected {
+				time.Sleep(time.Duration(l.SlowICE) * time.Millisecond)
+			}
+		}
+		pcA.OnICEConnectionStateChange(slow)
+		pcB.OnICEConnectionStateChange(slow)
+		v.Label("live:slow-ice-callback")
+	}
 	if _, err = pcA.CreateDataChannel("c22", nil); err != nil {
 		v.Skip("CreateDataChannel")
 	}
@@ -352,7 +367,11 @@ func TestVerif_C22_Live(t *testing.T) {
 					if vfTier() == "quick" && (media+cl+tamper)%2 == 1 {
 						continue // quick tier: half of the 36 combinations
 					}
-					if s.One(vfC22Case{Live: &vfC22Live{Tamper: tamper, NoCloseByDTLS: nc, Media: media, Close: cl}}) {
+					slow := 0
+					if (tamper+media+cl)%3 == 0 {
+						slow = 400
+					}
+					if s.One(vfC22Case{Live: &vfC22Live{Tamper: tamper, NoCloseByDTLS: nc, Media: media, Close: cl, SlowICE: slow}}) {
 						return
 					}
 				}
@@ -362,6 +381,6 @@ func TestVerif_C22_Live(t *testing.T) {
 }
 
 var vfC22LiveOpts = vfOpts{
-	Rule:        "live family: real pairs over {no tampering, fingerprint altered in the offer, in the answer} x {close-by-DTLS on, off} x {data only, plus video} x {nobody closes, offerer, answerer}; whenever a peer's ICE and DTLS states have settled its ConnectionState() must equal the reference aggregate; non-trivial = a DTLS start failure was provoked",
+	Rule:        "live family: real pairs over {no tampering, fingerprint altered in the offer, in the answer} x {close-by-DTLS on, off} x {data only, plus video} x {nobody closes, offerer, answerer}, a third of them with OnICEConnectionStateChange callbacks that take 400 ms; whenever a peer's ICE and DTLS states have settled its ConnectionState() must equal the reference aggregate; non-trivial = a DTLS start failure was provoked",
 	Assumptions: []string{"a peer counts as settled when its ICE and DTLS states left new/checking/connecting and did not change for 200 ms; the stored state is polled for 3 s before a mismatch is reported"},
 }
